@@ -126,4 +126,21 @@ def r1_3(ctx):
                       f"{f.qualname} emits lines of `{show(w)}` cells, which is not bounded by the available width (bound: {'unknown' if ub is None else 'W%+d' % ub}): the frame can be wider than the space it was given")
 
 
-RULES = [r1_1, r1_2, r1_3]
+def r1_4(ctx):
+    ctx.rule("R1.4", "text fits its budget structurally: Text.__rich_console__ wraps to options.max_width, and wrap() truncates the lines of every paragraph to that width before collecting them (the arithmetic of where to break is C02/C13 territory)")
+    f = ctx.repo.fn("text:Text.__rich_console__")
+    calls = [c for c in walk_local(f.node) if isinstance(c, ast.Call) and norm(c.func) == "self.wrap"]
+    ok = len(calls) == 1 and len(calls[0].args) >= 2 and norm(calls[0].args[1]) == "options.max_width"
+    ctx.check(ok, f.fq, short(calls[0]) if calls else "?", f.where, "Text wraps itself to options.max_width", "Text.__rich_console__ does not wrap to options.max_width")
+    from .c02 import r2_2
+    from .common import borrow
+    borrow(ctx, r2_2, "R2.2", "R1.4b", " [every wrapped line is truncated to the width]")
+
+
+def r1_5(ctx):
+    from .c08 import r8_10
+    from .common import borrow
+    borrow(ctx, r8_10, "R8.10", "R1.5", " [bars stay within their width: both edges use the same rounding]")
+
+
+RULES = [r1_1, r1_2, r1_3, r1_4, r1_5]
